@@ -315,16 +315,27 @@ def run_case(case):
         bystander(r, viol, ctr, "")
         if r.exception is not None:
             kind, key = oracles.classify_apply_exception(case, r.exception)
+            left = shared_context(case, r.bu, irsan.sanitize(
+                r.bu.module, state["snap"], failure_path=True))
             if kind == "raised":
                 msg = "".join(traceback.format_exception(
                     type(r.exception), r.exception,
                     r.exception.__traceback__))[-2000:]
+                if key.startswith("apply-raises:AssertionError@edges.py:") \
+                        and msg.rstrip().endswith(
+                            "block.ir\nAssertionError") and any(
+                        it[0] == "irsan:function-table-keeps-a-removed-"
+                                 "block-of-two-functions" for it in left):
+                    # (F64) return-edge bookkeeping walks the blocks of a
+                    # function and meets the removed block its table still
+                    # lists: `assert block.ir`
+                    key += (":function-table-keeps-a-removed-block-of-two-"
+                            "functions")
                 viol.append({"key": key, "msg": msg})
             else:
                 ctr["precondition_refusals"] = 1
             # whatever was left behind must still be closed
-            for item in shared_context(case, r.bu, irsan.sanitize(
-                    r.bu.module, state["snap"], failure_path=True)):
+            for item in left:
                 viol.append({"key": item[0] + ":after-apply-raised",
                              "msg": item[1]})
             return {"sig": None, "violations": viol, "counters": ctr}
